@@ -46,7 +46,7 @@ def cases(draw):
     constraint = draw(st.sampled_from(["triclinic", "triclinic", "matching"]))
     # start files either carry the perturbed translation, or none at all (plain indexer output): then every grain
     # starts at the origin and the true positions are generated within the +-100 um perturbation range
-    starts_with_t = draw(st.sampled_from([True, True, False]))
+    starts_with_t = draw(st.sampled_from([True, True, False, "mixed"]))     # mixed: every second grain has none
     route = draw(st.sampled_from(["api", "api", "makemap"]))
     uniq = draw(st.sampled_from(["triclinic", "triclinic", "matching"]))      # makemap -s : orientation choice only
     seed = draw(st.integers(0, 2 ** 31 - 1))
@@ -89,7 +89,9 @@ def simulate(case):
         if case["constraint"] == "matching":
             e = np.eye(3) * e[0, 0] if case["lattice"] == "cubicF" else np.zeros((3, 3))
         UB = U @ (np.eye(3) + e) @ B
-        t = rng.uniform(-500, 500, 3) if case["starts_with_t"] else rng.uniform(-100, 100, 3)
+        has_t = (g % 2 == 0) if case["starts_with_t"] == "mixed" else bool(case["starts_with_t"])
+        t_far, t_near = rng.uniform(-500, 500, 3), rng.uniform(-100, 100, 3)
+        t = t_far if has_t else t_near
         gv = UB @ hk
         sim = O.geo_simulate(gv, p, t)
         for k in range(2):
@@ -138,7 +140,8 @@ def write_inputs(d, p, cell, sym, starts, rows, with_t, oldnames=False):
     cf.parameters = parameters.parameters(**allp)
     cf.writefile(flt)
     parameters.parameters(**allp).saveparameters(par)
-    gl = [grain.grain(u, (t if with_t else None)) for u, t in starts]
+    gl = [grain.grain(u, (t if ((k % 2 == 0) if with_t == "mixed" else with_t) else None))
+          for k, (u, t) in enumerate(starts)]
     grain.write_grain_file(ubi, gl)
     return flt, par, ubi
 
@@ -147,6 +150,14 @@ def check(case, rec=None):
     from ImageD11 import refinegrains, grain, columnfile
     p, cell, sym, symname, grains, starts, rows = simulate(case)
     counts = np.bincount(rows[:, 3].astype(int), minlength=len(grains)) if len(rows) else np.zeros(len(grains), int)
+    sort_npks = bool((case["seed"] // 5) % 2)              # makemap's default is to save the grains sorted by peaks
+    if sort_npks and len(grains) >= 2 and case["seed"] % 3 == 2 and counts.min() >= 20:
+        # two grains with exactly the same number of peaks (peaks of the richer one lost, as behind a beam stop)
+        a_, b_ = (0, 1) if counts[0] >= counts[1] else (1, 0)
+        idx = np.nonzero(rows[:, 3].astype(int) == a_)[0]
+        drop = np.random.RandomState(case["seed"] % 7919).permutation(idx)[:counts[a_] - counts[b_]]
+        rows = np.delete(rows, drop, axis=0)
+        counts = np.bincount(rows[:, 3].astype(int), minlength=len(grains))
     if len(rows) == 0 or counts.min() < 20:
         if rec is not None:
             rec.exclude("fewer than 20 simulated peaks for a grain on the detector")
@@ -177,7 +188,7 @@ def check(case, rec=None):
                         o.refinepositions()
                         o.refinepositions()
                         o.refineubis()
-                        o.savegrains(out, sort_npks=False)
+                        o.savegrains(out, sort_npks=sort_npks)
                         o.scandata[flt].writefile(flt + ".new")
                     ok, e = guard(run)
                 else:
@@ -191,7 +202,7 @@ def check(case, rec=None):
                     opts = types.SimpleNamespace(parfile=par, fltfile=flt, ubifile=ubi, newubifile=out,
                                                  symmetry=(symname if case.get("uniq") == "matching" else "triclinic"),
                                                  latticesymmetry=latsym, tol=0.05,
-                                                 omega_float=case["omfloat"], omega_slop=0.25, sort_npks=False,
+                                                 omega_float=case["omfloat"], omega_slop=0.25, sort_npks=sort_npks,
                                                  tthrange=None,
                                                  newfltfile=(os.path.join(d, "unindexed.flt")
                                                              if case["seed"] % 2 else None))
@@ -210,6 +221,40 @@ def check(case, rec=None):
             return [exc_failure("read_grain_file(out.map)", got)]
         if len(got) != len(grains):
             return [fail("count", "%d grains saved, %d simulated; %s" % (len(got), len(grains), where), what="count")]
+        lmap = np.arange(len(grains))          # label in the peak file -> simulated grain
+        if sort_npks:
+            # saved in order of peak count: bring the list back to the order of the simulated grains.  The labels in
+            # the peak file are the grain names = positions in the grain file the (last) pass started from: the
+            # start file for one pass, the sorted output of the first pass for makemap run twice
+            def match(gl_):
+                back_ = [None] * len(grains)
+                pos_ = []
+                for g in gl_:
+                    errs = []
+                    for UB, t in grains:
+                        M = g.ubi @ UB
+                        errs.append(np.abs(M - np.rint(M)).max()
+                                    if abs(abs(np.linalg.det(np.rint(M))) - 1) < 1e-9 else 9.0)
+                    j = int(np.argmin(errs))
+                    pos_.append(j)
+                    if back_[j] is None:
+                        back_[j] = g
+                return back_, pos_
+            back, _ = match(got)
+            if any(b is None for b in back):
+                return [fail("count", "the saved grains (sorted by number of peaks) do not correspond one to one to "
+                             "the simulated grains; %s" % where, what="count")]
+            got = back
+            if case["route"] != "api":
+                ok, first = guard(grain.read_grain_file, os.path.join(d, "out.map"))
+                if not ok or len(first) != len(grains):
+                    return [fail("count", "first makemap pass did not save one grain per simulated grain; %s" % where,
+                                 what="count")]
+                b1, pos1 = match(first)
+                if any(b is None for b in b1):
+                    return [fail("count", "grains saved by the first makemap pass do not correspond one to one to the "
+                                 "simulated grains; %s" % where, what="count")]
+                lmap = np.array(pos1)
         # peaks that more than one of the generating grains indexes (within twice the tolerance) are contested:
         # with perturbed starting grains either owner is a legitimate best fit
         E = np.array([O.lattice_errors(np.linalg.inv(UB), O.geo_forward(rows[:, 0], rows[:, 1], rows[:, 2], p, t)["g"].T)[0]
@@ -218,7 +263,9 @@ def check(case, rec=None):
         ok_, cf0 = guard(columnfile.columnfile, flt + ".new")
         mislabelled = 0
         if ok_ and "labels" in cf0.titles and cf0.nrows == len(rows):
-            mislabelled = int((np.asarray(cf0.labels).astype(int) != rows[:, 3].astype(int)).sum())
+            l0 = np.asarray(cf0.labels).astype(int)
+            l0 = np.where((l0 >= 0) & (l0 < len(lmap)), lmap[np.clip(l0, 0, len(lmap) - 1)], l0)
+            mislabelled = int((l0 != rows[:, 3].astype(int)).sum())
         # single pass (makemap) with peaks taken by a neighbouring grain at the perturbed start: looser bounds
         lim_u, lim_t = (2e-5, 5.0) if mislabelled == 0 else (1e-3, 50.0)
         worst_u = worst_t = 0.0
@@ -265,6 +312,7 @@ def check(case, rec=None):
                 fails.append(fail("rows", "saved peak file has %d rows, %d written" % (cf.nrows, len(rows)), what="rows"))
             else:
                 lab = np.asarray(cf.labels).astype(int)
+                lab = np.where((lab >= 0) & (lab < len(lmap)), lmap[np.clip(lab, 0, len(lmap) - 1)], lab)
                 wrong = (lab != rows[:, 3].astype(int)) & ~contested
                 if rec is not None and contested.any():
                     rec.exclude("peak indexed by more than one generating grain (label may go to either)",
